@@ -83,23 +83,29 @@ Proof.
   assert (is_ack f = true) by (apply ack_iff; eauto). congruence.
 Qed.
 
-(* under the shape guard the type check never crashes *)
-Lemma shape_no_crash f e : shape_ok f = true -> msg_type f <> TCrash e.
+(* the type-level crash class is exact *)
+Lemma type_crashes_iff f : type_crashes f = true <-> exists e, msg_type f = TCrash e.
 Proof.
-  unfold msg_type, shape_ok.
-  destruct f as [s|j]; [discriminate|]. destruct j; try discriminate.
-  destruct (jlookup "type" kv) as [t|]; [|discriminate].
-  destruct t; simpl; try discriminate.
-  - destruct b; discriminate.
-  - destruct (negb (z =? 0)%Z); discriminate.
-  - destruct (String.eqb s ""); simpl; [discriminate|].
-    destruct (mtype_of_string s); discriminate.
-  - destruct l; simpl; discriminate.
-  - destruct kv0; simpl; discriminate.
+  unfold msg_type, type_crashes.
+  destruct f as [s|j]; [split; [discriminate|intros [e H]; discriminate]|].
+  destruct j; try (split; [eauto|reflexivity]).
+  destruct (jlookup "type" kv) as [t|]; [|split; [discriminate|intros [e H]; discriminate]].
+  destruct t; simpl; try (split; [discriminate|intros [e H]; discriminate]).
+  - destruct b; split; try discriminate; intros [e H]; discriminate.
+  - destruct (negb (z =? 0)%Z); split; try discriminate; intros [e H]; discriminate.
+  - destruct (String.eqb s ""); simpl; [split; [discriminate|intros [e H]; discriminate]|].
+    destruct (mtype_of_string s); split; try discriminate; intros [e H]; discriminate.
+  - destruct l; simpl; split; eauto; try discriminate. intros [e H]; discriminate.
+  - destruct kv0; simpl; split; eauto; try discriminate. intros [e H]; discriminate.
 Qed.
 
-(* AwaitAck under the shape guard: a first frame that is not the ack raises the invalid-message error *)
-Lemma await_invalid rq f : shape_ok f = true -> is_ack f = false ->
+Lemma shape_no_crash f e : type_crashes f = false -> msg_type f <> TCrash e.
+Proof.
+  intros H E. assert (type_crashes f = true) by (apply type_crashes_iff; eauto). congruence.
+Qed.
+
+(* AwaitAck outside the type-crash class: a first frame that is not the ack raises the invalid-message error *)
+Lemma await_invalid rq f : type_crashes f = false -> is_ack f = false ->
   exists m, step rq AwaitAck f = (Done (RaisedInvalid m), [ERecv]).
 Proof.
   intros S A. unfold step. destruct (msg_type f) eqn:E; eauto.
@@ -147,11 +153,11 @@ Proof.
   - destruct kv0; simpl; eauto.
 Qed.
 
-(* Streaming, terminal frames, exact outcome under the shape guard *)
-Lemma stream_error_exact rq f l : shape_ok f = true -> skind_of f = SError l ->
+(* Streaming: an error frame with a well-formed (or absent) payload raises the multi-error — no guard *)
+Lemma stream_error_exact rq f l : skind_of f = SError l ->
   step rq Streaming f = (Done (RaisedMulti l (frame_json f)), [ERecv]).
 Proof.
-  unfold step, skind_of, msg_type, shape_ok.
+  unfold step, skind_of, msg_type.
   destruct f as [s|j]; [discriminate|]. destruct j; try discriminate.
   destruct (jlookup "type" kv) as [t|]; [|discriminate].
   destruct t; try discriminate.
@@ -161,15 +167,104 @@ Proof.
     destruct m; try discriminate.
     + brk; discriminate.
     + destruct (jlookup "payload" kv) as [p|]; simpl.
-      * destruct p; try discriminate. intros F K. rewrite F in K. inversion K; subst.
-        simpl. rewrite (first_bad_ok _ F). reflexivity.
-      * intros _ K. inversion K. reflexivity.
+      * destruct p; try discriminate. destruct (forallb is_error_obj l0) eqn:F; [|discriminate].
+        intros K. inversion K; subst. simpl. rewrite (first_bad_ok _ F). reflexivity.
+      * intros K. inversion K. reflexivity.
 Qed.
 
+(* the payload-level crash class is exact *)
+Lemma payload_crashes_iff f : payload_crashes f = true <->
+  exists t p e, msg_type f = TKnown t p /\ action_of t p = ACrash e.
+Proof.
+  unfold msg_type, payload_crashes.
+  destruct f as [s|j]; [split; [discriminate|intros (t' & p' & e' & H & _); discriminate]|].
+  destruct j; try (split; [discriminate|intros (t' & p' & e' & H & _); discriminate]).
+  destruct (jlookup "type" kv) as [t|]; [|split; [discriminate|intros (t' & p' & e' & H & _); discriminate]].
+  destruct t; simpl; try (split; [discriminate|intros (t' & p' & e' & H & _); discriminate]).
+  - destruct b; split; try discriminate; intros (t' & p' & e' & H & _); discriminate.
+  - destruct (negb (z =? 0)%Z); split; try discriminate; intros (t' & p' & e' & H & _); discriminate.
+  - destruct (String.eqb s "") eqn:E; simpl.
+    + apply String.eqb_eq in E. subst. rewrite mtype_empty.
+      split; [discriminate|intros (t' & p' & e' & H & _); discriminate].
+    + destruct (mtype_of_string s) as [m|]; [|split; [discriminate|intros (t' & p' & e' & H & _); discriminate]].
+      destruct m; try (split; [discriminate|intros (t' & p' & e' & H & A); inversion H; subst; discriminate]).
+      * (* next *)
+        destruct (jlookup "payload" kv) as [q|]; simpl.
+        -- destruct q; simpl;
+             try (split; [intros _; do 3 eexists; split; [reflexivity|reflexivity]|reflexivity]).
+           ++ split.
+              ** intro H. do 3 eexists. split; [reflexivity|]. simpl. rewrite H. reflexivity.
+              ** intros (t' & p' & e' & H & A). inversion H; subst. simpl in A.
+                 destruct (has_substring "data" s0); [reflexivity|discriminate].
+           ++ split.
+              ** intro H. do 3 eexists. split; [reflexivity|]. simpl. rewrite H. reflexivity.
+              ** intros (t' & p' & e' & H & A). inversion H; subst. simpl in A.
+                 destruct (existsb (is_str "data") l); [reflexivity|discriminate].
+           ++ split; [discriminate|]. intros (t' & p' & e' & H & A). inversion H; subst. simpl in A.
+              destruct (jlookup "data" kv0); discriminate.
+        -- split; [discriminate|]. intros (t' & p' & e' & H & A). inversion H; subst. discriminate.
+      * (* error *)
+        destruct (jlookup "payload" kv) as [q|]; simpl.
+        -- destruct q; simpl;
+             try (split; [intros _; do 3 eexists; split; [reflexivity|reflexivity]|reflexivity]).
+           ++ destruct s0; split; try discriminate.
+              ** intros (t' & p' & e' & H & A). inversion H; subst. discriminate.
+              ** intros _. do 3 eexists. split; reflexivity.
+              ** reflexivity.
+           ++ destruct (forallb is_error_obj l) eqn:F; simpl; split; try discriminate.
+              ** intros (t' & p' & e' & H & A). inversion H; subst. simpl in A.
+                 rewrite (first_bad_ok _ F) in A. discriminate.
+              ** intros _. destruct (first_bad_not_ok _ F) as [x X].
+                 do 3 eexists. split; [reflexivity|]. simpl. rewrite X. reflexivity.
+              ** reflexivity.
+           ++ destruct kv0; split; try discriminate.
+              ** intros (t' & p' & e' & H & A). inversion H; subst. discriminate.
+              ** intros _. do 3 eexists. split; reflexivity.
+              ** reflexivity.
+        -- split; [discriminate|]. intros (t' & p' & e' & H & A). inversion H; subst. discriminate.
+  - destruct l; simpl; split; try discriminate; intros (t' & p' & e' & H & _); discriminate.
+  - destruct kv0; simpl; split; try discriminate; intros (t' & p' & e' & H & _); discriminate.
+Qed.
+
+(* the crash class of the open stream is exact: these and only these frames end the run with a
+   non-protocol exception *)
+Definition crash_stream (f : frame) : bool := type_crashes f || payload_crashes f.
+
+Lemma crash_stream_iff rq f : crash_stream f = true <->
+  exists e, step rq Streaming f = (Done (RaisedOther e), [ERecv]).
+Proof.
+  unfold crash_stream. split.
+  - intro H. apply orb_true_iff in H as [H|H].
+    + apply type_crashes_iff in H as [e H]. unfold step. rewrite H. eauto.
+    + apply payload_crashes_iff in H as (t & p & e & H & A). unfold step. rewrite H, A. eauto.
+  - intros [e H]. unfold step in H. apply orb_true_iff.
+    destruct (msg_type f) eqn:M; try discriminate.
+    + left. apply type_crashes_iff. eauto.
+    + destruct (action_of t payload) eqn:A; try discriminate.
+      right. apply payload_crashes_iff. eauto 6.
+Qed.
+
+(* the two error payloads that are not a list but iterate as empty: an EMPTY multi-error *)
+Lemma odd_error_multi rq f : odd_empty_error f = true ->
+  step rq Streaming f = (Done (RaisedMulti [] (frame_json f)), [ERecv]).
+Proof.
+  unfold step, msg_type, odd_empty_error.
+  destruct f as [s|j]; [discriminate|]. destruct j; try discriminate.
+  destruct (jlookup "type" kv) as [t|]; [|discriminate]. destruct t; try discriminate.
+  destruct (String.eqb s "") eqn:E; simpl; rewrite E; simpl.
+  - apply String.eqb_eq in E. subst. rewrite mtype_empty. discriminate.
+  - destruct (mtype_of_string s) as [m|]; [|discriminate]. destruct m; try discriminate.
+    destruct (jlookup "payload" kv) as [q|]; [|discriminate].
+    destruct q; try discriminate; simpl.
+    + destruct s0; [reflexivity|discriminate].
+    + destruct kv0; [reflexivity|discriminate].
+Qed.
+
+(* Streaming, malformed frames outside the (exact) shape class raise the invalid-message error *)
 Lemma stream_malformed_exact rq f : shape_ok f = true -> skind_of f = SMalformed ->
   step rq Streaming f = (Done (RaisedInvalid (Some f)), [ERecv]).
 Proof.
-  unfold step, skind_of, msg_type, shape_ok.
+  unfold shape_ok, step, skind_of, msg_type, type_crashes, payload_crashes, odd_empty_error.
   destruct f as [s|j]; [reflexivity|]. destruct j; try discriminate.
   destruct (jlookup "type" kv) as [t|]; [|reflexivity].
   destruct t; simpl; try reflexivity.
@@ -179,9 +274,15 @@ Proof.
     destruct (mtype_of_string s) as [m|]; [|reflexivity].
     destruct m; try discriminate.
     + destruct (jlookup "payload" kv) as [p|]; simpl; [|reflexivity].
-      destruct p; try discriminate. intros _. simpl. destruct (jlookup "data" kv0); [discriminate|reflexivity].
+      destruct p; simpl; try discriminate.
+      * destruct (has_substring "data" s0); [discriminate|reflexivity].
+      * destruct (existsb (is_str "data") l); [discriminate|reflexivity].
+      * intros _. destruct (jlookup "data" kv0); [discriminate|reflexivity].
     + destruct (jlookup "payload" kv) as [p|]; simpl; [|discriminate].
-      destruct p; try discriminate. intros F. rewrite F. discriminate.
+      destruct p; simpl; try discriminate.
+      * destruct s0; discriminate.
+      * destruct (forallb is_error_obj l); discriminate.
+      * destruct kv0; discriminate.
   - destruct l; [reflexivity|discriminate].
   - destruct kv0; [reflexivity|discriminate].
 Qed.
@@ -306,7 +407,7 @@ Proof.
     destruct (run_from rq Streaming r) as [e q]; destruct (spec_stream r) as [e' o'].
     simpl in *. destruct IH; subst; auto.
   - rewrite C, run_done. split; reflexivity.
-  - rewrite (stream_error_exact rq f errs Shf K), run_done. split; reflexivity.
+  - rewrite (stream_error_exact rq f errs K), run_done. split; reflexivity.
   - rewrite C. specialize (IH Sh T).
     destruct (run_from rq Streaming r) as [e q]; destruct (spec_stream r) as [e' o'].
     simpl in *. destruct IH; subst; auto.
@@ -334,7 +435,7 @@ Proof.
       destruct (run_from rq Streaming r) as [e q]; destruct (spec_stream r) as [e' o'].
       simpl in *. subst. auto.
     + rewrite run_done. simpl. auto.
-  - destruct (await_invalid rq f Sf A) as [m E]. rewrite E, run_done.
+  - apply negb_true_iff in Sf. destruct (await_invalid rq f Sf A) as [m E]. rewrite E, run_done.
     unfold is_ack in A. destruct (skind_of f); try discriminate; simpl; auto.
 Qed.
 
@@ -458,7 +559,7 @@ Proof.
     destruct (await_not_ack rq f (H f r eq_refl)) as [o E]. rewrite E, run_done. reflexivity.
 Qed.
 
-Lemma first_not_ack c rq f r : shape_ok f = true -> is_ack f = false ->
+Lemma first_not_ack c rq f r : type_crashes f = false -> is_ack f = false ->
   exists msg, t_fin (run_ws c rq (f :: r)) = RaisedInvalid msg /\
               t_events (run_ws c rq (f :: r)) = [ESend (init_msg c); ERecv].
 Proof.
@@ -486,13 +587,13 @@ Proof.
 Qed.
 
 Lemma error_multi c rq f a x b m l : is_ack f = true -> subscribe_msg rq = Some m ->
-  nonterminal a = true -> skind_of x = SError l -> shape_ok x = true ->
+  nonterminal a = true -> skind_of x = SError l ->
   t_fin (run_ws c rq (f :: a ++ x :: b)) = RaisedMulti l (frame_json x) /\
   yielded_of (t_events (run_ws c rq (f :: a ++ x :: b))) = filter nonnull (next_data a).
 Proof.
-  intros A M N K S. destruct (fin_after_prefix c rq f a (x :: b) m A M N) as (F & Y & _).
+  intros A M N K. destruct (fin_after_prefix c rq f a (x :: b) m A M N) as (F & Y & _).
   rewrite F, Y, (nonterminal_yields rq a N). simpl.
-  rewrite (stream_error_exact rq x l S K), run_done. simpl. rewrite app_nil_r. auto.
+  rewrite (stream_error_exact rq x l K), run_done. simpl. rewrite app_nil_r. auto.
 Qed.
 
 Lemma malformed_invalid c rq f a x b m : is_ack f = true -> subscribe_msg rq = Some m ->
@@ -513,4 +614,72 @@ Lemma history_independent cl calls :
 Proof.
   induction calls as [|[[k rq] fs] r [IH1 IH2]]; [split; reflexivity|].
   simpl. destruct (run_history cl r) as [ts cl'']. simpl in *. subst. split; reflexivity.
+Qed.
+
+(* ------------------------------------------------------------------------------------------ *)
+(* the run ends with a non-protocol exception exactly when a crash-class frame is consumed       *)
+Lemma stream_other rq r e : snd (run_from rq Streaming r) = Done (RaisedOther e) ->
+  exists a x b, r = a ++ x :: b /\ nonterminal a = true /\ crash_stream x = true.
+Proof.
+  unfold nonterminal. induction r as [|f r IH]; simpl; [discriminate|].
+  pose proof (stream_coarse rq f) as C. pose proof (crash_stream_iff rq f) as X.
+  destruct (skind_of f) eqn:K;
+    try (rewrite C; destruct (run_from rq Streaming r) as [ev q] eqn:R; simpl in *; intro H;
+         destruct (IH H) as (a & x & b & E & N & Cx); exists (f :: a), x, b; simpl;
+         rewrite K, E; simpl; auto).
+  - rewrite C, run_done. simpl. discriminate.
+  - destruct C as [o C]. rewrite C, run_done. simpl. intro H. inversion H; subst.
+    exists [], f, r. repeat split; auto. apply X. eauto.
+  - destruct C as [o C]. rewrite C, run_done. simpl. intro H. inversion H; subst.
+    exists [], f, r. repeat split; auto. apply X. eauto.
+Qed.
+
+Lemma only_protocol_outcomes c rq fs e : t_fin (run_ws c rq fs) = RaisedOther e ->
+  (e = SER_ERROR /\ subscribe_msg rq = None /\ exists f r, fs = f :: r /\ is_ack f = true)
+  \/ (exists f r, fs = f :: r /\ type_crashes f = true)
+  \/ (exists f a x b, fs = f :: a ++ x :: b /\ is_ack f = true /\ nonterminal a = true /\ crash_stream x = true).
+Proof.
+  unfold run_ws. destruct fs as [|f r]; [simpl; discriminate|]. simpl.
+  destruct (is_ack f) eqn:A.
+  - rewrite (await_ack rq f A). destruct (subscribe_msg rq) as [m|] eqn:M.
+    + pose proof (stream_other rq r e) as S. destruct (run_from rq Streaming r) as [ev q]. simpl in *.
+      intro H. destruct q; try discriminate. simpl in H. subst.
+      destruct (S eq_refl) as (a & x & b & E & N & Cx). right. right. exists f, a, x, b. subst. auto.
+    + rewrite run_done. simpl. intro H. inversion H. left. repeat split; eauto.
+  - unfold step. destruct (msg_type f) eqn:T.
+    + rewrite run_done. simpl. discriminate.
+    + rewrite run_done. simpl. intros _. right. left. exists f, r. split; auto.
+      apply type_crashes_iff. eauto.
+    + destruct t; rewrite ?run_done; simpl; try discriminate.
+      assert (is_ack f = true) by (apply ack_iff; eauto). congruence.
+Qed.
+
+Lemma crash_consumed_raises c rq f a x b m : is_ack f = true -> subscribe_msg rq = Some m ->
+  nonterminal a = true -> crash_stream x = true ->
+  exists e, t_fin (run_ws c rq (f :: a ++ x :: b)) = RaisedOther e.
+Proof.
+  intros A M N Cx. destruct (fin_after_prefix c rq f a (x :: b) m A M N) as (F & _).
+  apply (crash_stream_iff rq) in Cx as [e E]. exists e. rewrite F. simpl. rewrite E, run_done. reflexivity.
+Qed.
+
+Lemma first_crash_raises c rq f r : type_crashes f = true ->
+  exists e, t_fin (run_ws c rq (f :: r)) = RaisedOther e.
+Proof.
+  intro H. apply type_crashes_iff in H as [e H]. exists e. unfold run_ws. simpl. unfold step. rewrite H.
+  rewrite run_done. reflexivity.
+Qed.
+
+(* ------------------------------------------------------------------------------------------ *)
+(* the message-type table exported to the harness is exactly what mtype_of_string decides       *)
+Lemma mtype_table_exact s t : mtype_of_string s = Some t <-> exists n, In (n, s, t) type_table.
+Proof.
+  unfold mtype_of_string. split.
+  - repeat match goal with
+           | |- context [String.eqb s ?k] =>
+               let E := fresh "E" in destruct (String.eqb s k) eqn:E;
+               [apply String.eqb_eq in E; subst; intro H; inversion H; subst; eexists; simpl; eauto 12|]
+           end.
+    discriminate.
+  - intros [n H]. simpl in H.
+    repeat (destruct H as [H|H]; [inversion H; subst; reflexivity|]). contradiction.
 Qed.
